@@ -34,8 +34,10 @@ fn cfg_one(thorough: bool) -> Cfg {
         combos: true,
         move_b: true,
         toggle_d: true,
+        recreate_a: true,
         audit_mod: if thorough { 40 } else { 30 },
         audit_cap: if thorough { 4000 } else { 400 },
+        batch: if thorough { 3 } else { 2 },
     }
 }
 
@@ -53,8 +55,11 @@ fn cfg_two(thorough: bool) -> Cfg {
         // thorough (3 tokens): B's datacenter move is left to the one-table search to keep the tier within minutes
         move_b: !thorough,
         toggle_d: true,
+        // quick: A's re-creation with a new address is left to the one-table search
+        recreate_a: thorough,
         audit_mod: 50,
         audit_cap: 300,
+        batch: if thorough { 3 } else { 2 },
     }
 }
 
@@ -368,7 +373,7 @@ fn main() {
         let steps = r.tier().pick(20_000u64, 1_000_000u64);
         walk(&r, steps, r.args.seed);
     }
-    r.set_rule("E-BFS to a fixpoint on the real TabletsInfo/ClusterState (hook H-TABLETS; tablets learnt from payload bytes through the production parser/translator/update_tablets, refreshes through the production topology diff + perform_maintenance). Stage one: one table, token universe quick {MIN+1,-1,0,1,MAX} / thorough {MIN+1,MIN+2,-1,0,1,MAX-1,MAX}; events = learn [a,b] for EVERY a<=b in U x replica sets {known A+B in two DCs; A + never-known X; C+B where C leaves/re-joins} and refresh with EVERY subset of {C leaves/re-joins, D joins/leaves, A re-created with a new address, B re-created in another DC} in one refresh x schema {present, table dropped, (keyspace not tablet-based, keyspace gone)}. Stage two: a table and a materialized view over 3-4 tokens. After EVERY transition: range list sorted+disjoint; stored set = reference alive set replica for replica (node object identity, address, DC); hidden flags sound; every token of U + probes answered exactly as the latest-wins reference (nothing if overlapped/discarded); per-DC lists and DC-restricted lookups = restriction of the full list; equal canonical forms answer identically. distinct_nontrivial = distinct canonical states + accepted payload cases. Walk: seeded random i64 ranges, labelled sampled.");
+    r.set_rule("E-BFS to a fixpoint on the real TabletsInfo/ClusterState (hook H-TABLETS; tablets learnt from payload bytes through the production parser/translator/update_tablets, refreshes through the production topology diff + perform_maintenance). Stage one: one table, token universe quick {MIN+1,-1,0,1,MAX} / thorough {MIN+1,MIN+2,-1,0,1,MAX-1,MAX}; events = learn [a,b] for EVERY a<=b in U x replica sets {known A+B in two DCs; A + never-known X; C+B where C leaves/re-joins}, BATCHES of 2 (thorough 3) tablets delivered by ONE update_tablets call (identical range with every ordered pair of replica sets, overlapping / containing / adjacent / disjoint ranges in both orders, same range on table and view; reference applies them in arrival order) and refresh with EVERY subset of {C leaves/re-joins, D joins/leaves, A re-created with a new address, B re-created in another DC} in one refresh x schema {present, table dropped, (keyspace not tablet-based, keyspace gone)}. Stage two: a table and a materialized view over 3-4 tokens. After EVERY transition: range list sorted+disjoint; stored set = reference alive set replica for replica (node object identity, address, DC); hidden flags sound; every token of U + probes answered exactly as the latest-wins reference (nothing if overlapped/discarded); per-DC lists and DC-restricted lookups = restriction of the full list; equal canonical forms answer identically. distinct_nontrivial = distinct canonical states + accepted payload cases. Walk: seeded random i64 ranges, labelled sampled.");
     r.assume("node identity is observed through (host id, address, datacenter, Arc identity with ClusterState::known_nodes); A's concrete address is canonicalised to 'is the current address' (relabelling)");
     r.assume("BFS drives synchronous twins of ClusterState::new/new_updated (identical private steps minus spawn_blocking); a recorded subset of histories is replayed through the real async constructors and compared state by state (traces_validated_against_impl)");
     r.assume("the long walk over full-range i64 tokens is sampled (seeded) and never what coverage rests on");
